@@ -316,3 +316,219 @@ Proof.
   - rewrite settle_shut, fire_shut, F2, tA0_shut, SH1. reflexivity.
   - rewrite settle_ids, fire_ids, F1. unfold tA0. destruct (tie_mid m); [rewrite fire_ids|]; exact IDS1.
 Qed.
+
+(* ---- Express immediately awaited ---- *)
+Definition quiet_rec (fe : frontend) (t : N) (i : N) (r : irec) : Prop :=
+  fire_rec false t r = r /\ sv_rec fe i r = keep r /\ wants_cleanup r = false /\ ws_rec fe t i r = keep r.
+
+Lemma rec_ok_quiet fe t i r : rec_ok fe false t r -> quiet_rec fe t i r.
+Proof.
+  destruct r as [nm cb dg lf dl vm nd fu wa tm tf xc va]. unfold rec_ok, quiet_rec, fire_rec, timer_due, sv_rec, ws_rec, wants_cleanup; cbn.
+  intros [H V]. destruct wa; [destruct H | | |].
+  - destruct H as [-> [-> [-> [E [D W]]]]]. cbn. rewrite D. destruct va; try tauto; repeat split; auto.
+  - destruct H as [F [-> W]]. destruct va; repeat split; auto; subst fe; specialize (V eq_refl); discriminate.
+  - destruct va; try tauto; repeat split; auto.
+Qed.
+
+Lemma set_pit_id s : set_pit s (pit s) = s. Proof. destruct s; reflexivity. Qed.
+Lemma set_now_id s : set_now s (now s) = s. Proof. destruct s; reflexivity. Qed.
+
+Lemma quiet_settle_fire fe s :
+  (forall i r, In (i, r) (ints s) -> quiet_rec fe (now s) i r) ->
+  (forall pn nid es, In (pn, (nid, es)) (pit s) -> es <> []) ->
+  settle fe (fire false (now s) s) = s.
+Proof.
+  intros Q NE.
+  assert (F : fire false (now s) s = s).
+  { unfold fire. apply upd_all_id. intros i r I. destruct (Q i r I) as [E _]. rewrite E. reflexivity. }
+  rewrite F. unfold settle.
+  assert (S1 : upd_all (sv_rec fe) s = s). { apply upd_all_id. intros i r I. apply (Q i r I). }
+  rewrite S1.
+  assert (S2 : pit_map (fun pn nid e => negb (cleaning (ints s) pn nid e)) (pit s) = pit s).
+  { rewrite (pit_map_ext _ (fun _ _ _ => true)); [apply pit_map_true; auto|].
+    intros pn nid es e _ _. unfold cleaning. destruct (al_get N.eqb (ints s) (e_id e)) as [r|] eqn:G; auto.
+    apply al_get_In in G. destruct (Q _ _ G) as [_ [_ [W _]]]. rewrite W. reflexivity. }
+  rewrite S2, set_pit_id. apply upd_all_id. intros i r I. apply (Q i r I).
+Qed.
+
+(* al_set on the PIT *)
+Lemma Add_map {A B} (f : A -> B) x l l' : Add x l l' -> Add (f x) (map f l) (map f l').
+Proof. induction 1; cbn; constructor; auto. Qed.
+Lemma Add_app_l {A} (x : A) a l l' : Add x l l' -> Add x (a ++ l) (a ++ l').
+Proof. intros H. induction a; cbn; auto. constructor; auto. Qed.
+
+Lemma pflat_app p q : pflat (p ++ q) = pflat p ++ pflat q.
+Proof. unfold pflat. apply flat_map_app. Qed.
+
+Lemma al_set_absent (p : pit_t) n v : pit_get p n = None -> al_set name_eqb p n v = p ++ [(n, v)].
+Proof.
+  unfold pit_get. induction p as [|[k w] p IH]; cbn; auto. destruct (name_eqb n k); [discriminate|]. intros H. rewrite IH; auto.
+Qed.
+
+Lemma pflat_express_Add p n nid l e :
+  match pit_get p n with Some x => x = (nid, l) | None => l = [] end ->
+  Add (n, nid, e) (pflat p) (pflat (al_set name_eqb p n (nid, l ++ [e]))).
+Proof.
+  unfold pit_get. induction p as [|[k [nid0 l0]] p IH]; cbn.
+  - intros ->. cbn. constructor.
+  - destruct (name_eqb n k) eqn:E.
+    + intros H. inversion H; subst. apply name_eqb_eq in E. subst k. cbn.
+      rewrite map_app. cbn. rewrite <- app_assoc. cbn. apply Add_app.
+    + intros H. cbn. apply Add_app_l. apply IH, H.
+Qed.
+
+Lemma al_set_keys p n v :
+  map fst (al_set name_eqb p n v) = match pit_get p n with Some _ => map fst p | None => map fst p ++ [n] end.
+Proof.
+  unfold pit_get. induction p as [|[k w] p IH]; cbn; auto. destruct (name_eqb n k) eqn:E; cbn; auto.
+  rewrite IH. destruct (al_get name_eqb p n); reflexivity.
+Qed.
+
+Lemma pit_get_None_notin p n : pit_get p n = None -> ~ In n (map fst p).
+Proof.
+  unfold pit_get. induction p as [|[k w] p IH]; cbn; auto. destruct (name_eqb n k) eqn:E; [discriminate|].
+  intros H [F|F]; [subst; rewrite name_eqb_refl in E; discriminate | apply IH; auto].
+Qed.
+
+Lemma al_set_In (p : pit_t) n v pn x : In (pn, x) (al_set name_eqb p n v) -> In (pn, x) p \/ x = v.
+Proof.
+  induction p as [|[k w] p IH]; cbn.
+  - intros [E|[]]. inversion E; auto.
+  - destruct (name_eqb n k); cbn; intros [E|I]; auto.
+    + inversion E; auto.
+    + destruct (IH I); auto.
+Qed.
+
+Definition fresh_rec (n : name) (cbp : bool) (dig : option N) (life : N) (vm : vmode) (nw nid : N) : irec :=
+  mkI n cbp dig life (nw + life) vm nid FPending WNotAwaited 0 false false VNone.
+
+Lemma do_express_facts fe s1 i n cbp dig life vm :
+  shut s1 = false -> get_int s1 i = None ->
+  exists nid l,
+    match pit_get (pit s1) n with Some x => x = (nid, l) | None => l = [] end /\
+    ints (do_express fe s1 i n cbp dig life vm) = ints s1 ++ [(i, fresh_rec n cbp dig life vm (now s1) nid)] /\
+    pit (do_express fe s1 i n cbp dig life vm) = al_set name_eqb (pit s1) n (nid, l ++ [mkE i cbp dig]) /\
+    now (do_express fe s1 i n cbp dig life vm) = now s1 /\
+    shut (do_express fe s1 i n cbp dig life vm) = false.
+Proof.
+  intros S G. unfold do_express. rewrite S. unfold get_int in G. rewrite al_mem_get, G.
+  destruct (pit_get (pit s1) n) as [[nid l]|]; eexists; eexists; cbn; repeat split; eauto.
+Qed.
+
+Lemma await_fresh fe n cbp dig life vm t nid :
+  0 < life ->
+  await_rec fe t (fresh_rec n cbp dig life vm t nid) =
+  mkI n cbp dig life (t + life) vm nid FPending WWaiting (t + life) false false VNone.
+Proof.
+  intros L. unfold await_rec, fresh_rec; cbn. destruct fe; cbn; auto.
+  destruct (N.leb_spec (t + life) t); [lia | reflexivity].
+Qed.
+
+Lemma step_express_await fe s i n cbp dig life vm t :
+  inv fe false s -> shut_ok s -> now s <= t -> 0 < life -> get_int s i = None -> shut s = false ->
+  let s' := step fe (step fe s (NoTie, Express i n cbp dig life vm t)) (NoTie, Await i t) in
+  inv fe false s' /\ shut_ok s' /\
+  (forall j, abs s' j = spec_step fe j (spec_step fe j (abs s j) (NoTie, Express i n cbp dig life vm t)) (NoTie, Await i t)) /\
+  now s' = t /\ shut s' = false /\ map fst (ints s') = map fst (ints s) ++ [i].
+Proof.
+  intros I SH LE L G S. cbv zeta.
+  destruct (expiry_inv fe false false t s I) as [I1 [A1 N1]].
+  assert (S1 : shut (settle fe (fire false t (set_now s t))) = false) by exact S.
+  assert (IDS1 : map fst (ints (settle fe (fire false t (set_now s t)))) = map fst (ints s)).
+  { rewrite settle_ids, fire_ids. reflexivity. }
+  assert (STEP1 : forall e, step fe s (NoTie, e) = settle fe (fire false t (apply fe (settle fe (fire false t (set_now s t))) e)) \/ ev_time e <> t).
+  { intros e. destruct (N.eq_dec (ev_time e) t) as [X|X]; [left | right; exact X].
+    unfold step. cbn [fst snd]. rewrite X, (N.max_r _ _ LE). reflexivity. }
+  remember (settle fe (fire false t (set_now s t))) as s1 eqn:Hs1.
+  assert (G1 : get_int s1 i = None).
+  { unfold get_int in *. apply al_get_None_notin. rewrite IDS1. apply al_get_None_notin. exact G. }
+  destruct I1 as [[K1 [P1 M1]] R1].
+  destruct (do_express_facts fe s1 i n cbp dig life vm S1 G1) as [nid [l [PG [Ei [Ep [En Es]]]]]].
+  remember (do_express fe s1 i n cbp dig life vm) as s2 eqn:Hs2.
+  rewrite N1 in Ei, En.
+  set (r0 := fresh_rec n cbp dig life vm t nid) in *.
+  set (e0 := mkE i cbp dig) in *.
+  destruct P1 as [PK [PNE [PND PE]]].
+  assert (NE2 : forall pn nid' es, In (pn, (nid', es)) (pit s2) -> es <> []).
+  { intros pn nid' es In2. rewrite Ep in In2. apply al_set_In in In2. destruct In2 as [In2|E].
+    - eapply PNE; eauto.
+    - inversion E. destruct l; discriminate. }
+  assert (OLD : forall j r, In (j, r) (ints s1) -> get_int s1 j = Some r /\ j <> i).
+  { intros j r In1. assert (Gj : get_int s1 j = Some r) by (apply In_al_get; auto). split; auto. intros ->. congruence. }
+  (* first step *)
+  assert (E1 : step fe s (NoTie, Express i n cbp dig life vm t) = s2).
+  { destruct (STEP1 (Express i n cbp dig life vm t)) as [X|X]; [rewrite X | cbn in X; congruence]. cbn [apply]. rewrite <- Hs2.
+    rewrite <- En. apply quiet_settle_fire; auto.
+    intros j r In2. rewrite Ei in In2. apply in_app_iff in In2. destruct In2 as [In2|[In2|[]]].
+    - destruct (OLD j r In2) as [Gj _]. rewrite En, <- N1. apply rec_ok_quiet, (R1 j r Gj).
+    - inversion In2; subst. unfold quiet_rec, r0, fresh_rec. repeat split. }
+  rewrite E1.
+  (* second step *)
+  remember (do_await fe s2 i) as s3 eqn:Hs3.
+  assert (N3 : now s3 = t) by (rewrite Hs3; unfold do_await; rewrite upd_all_now; exact En).
+  assert (G3 : forall j, get_int s3 j = if j =? i then Some (await_rec fe t r0) else get_int s1 j).
+  { intros j. rewrite Hs3; unfold do_await. rewrite get_int_upd_all. unfold get_int. rewrite Ei, al_get_app. rewrite En.
+    destruct (N.eqb_spec j i) as [->|NE].
+    - unfold get_int in G1. rewrite G1. cbn [al_get]. rewrite N.eqb_refl. reflexivity.
+    - destruct (al_get N.eqb (ints s1) j) eqn:Gj; cbn [al_get option_map]; [reflexivity|].
+      apply N.eqb_neq in NE. rewrite NE. reflexivity. }
+  assert (P3 : pit s3 = al_set name_eqb (pit s1) n (nid, l ++ [e0])) by (rewrite Hs3; unfold do_await; rewrite upd_all_pit; exact Ep).
+  assert (AW : await_rec fe t r0 = mkI n cbp dig life (t + life) vm nid FPending WWaiting (t + life) false false VNone)
+    by (apply await_fresh; auto).
+  assert (ADD : Add (n, nid, e0) (pflat (pit s1)) (pflat (pit s3))) by (rewrite P3; apply pflat_express_Add; exact PG).
+  assert (NI : ~ In i (map xid (pflat (pit s1)))).
+  { intros In1. apply in_map_iff in In1. destruct In1 as [[[pn nd] e] [X In1]]. unfold xid in X; cbn in X. subst.
+    destruct (PE pn nd e In1) as [r [Gr _]]. congruence. }
+  assert (IDS3 : map fst (ints s3) = map fst (ints s) ++ [i]).
+  { rewrite Hs3; unfold do_await. rewrite ids_upd_all, Ei, map_app, IDS1. reflexivity. }
+  assert (INV3 : inv fe false s3).
+  { split; [split; [|split]|].
+    - rewrite IDS3. apply NoDup_app_intro; [rewrite <- IDS1; exact K1 | repeat constructor; auto |].
+      intros y Iy [<-|[]]. unfold get_int in G. apply al_get_None_notin in G. auto.
+    - split; [|split; [|split]].
+      + rewrite P3, al_set_keys. destruct (pit_get (pit s1) n) eqn:PGn; auto.
+        apply NoDup_app_intro; auto; [repeat constructor; auto|]. intros y Iy [<-|[]]. apply (pit_get_None_notin _ _ PGn Iy).
+      + intros pn nid' es In3. rewrite Hs3 in In3; unfold do_await in In3. rewrite upd_all_pit in In3. eapply NE2; eauto.
+      + apply (NoDup_Add (Add_map xid _ _ _ ADD)). split; auto.
+      + intros pn nd e In3. apply (Add_in ADD) in In3. destruct In3 as [E|In3].
+        * inversion E; subst. cbn [e_id e0]. rewrite G3, N.eqb_refl. eexists; split; [reflexivity|]. rewrite AW. cbn. auto.
+        * destruct (PE pn nd e In3) as [r [Gr [A [B C]]]]. rewrite G3.
+          destruct (N.eqb_spec (e_id e) i) as [X|X]; [rewrite X in Gr; congruence|]. eauto.
+    - intros j r' Gj. rewrite G3 in Gj. unfold pit_entries. rewrite pit_entries_flat.
+      destruct (N.eqb_spec j i) as [->|NE].
+      + inversion Gj; subst r'. rewrite AW. cbn. apply mem_In. apply in_map_iff. exists (n, nid, e0); split; [reflexivity|].
+        apply (Add_in ADD). left; reflexivity.
+      + rewrite <- (M1 j r' Gj). unfold pit_entries. rewrite pit_entries_flat.
+        apply Bool.eq_iff_eq_true. rewrite !mem_In, !in_map_iff. split.
+        * intros [x [X In3]]. apply (Add_in ADD) in In3. destruct In3 as [E|In3]; [subst x; cbn in X; congruence | eauto].
+        * intros [x [X In1]]. exists x; split; auto. apply (Add_in ADD). right; auto.
+    - intros j r' Gj. rewrite N3. rewrite G3 in Gj. destruct (N.eqb_spec j i) as [->|NE].
+      + inversion Gj; subst r'. rewrite AW. unfold rec_ok; cbn. repeat split; auto. unfold due. apply N.leb_gt. lia.
+      + rewrite <- N1. apply (R1 j r' Gj). }
+  assert (E2 : step fe s2 (NoTie, Await i t) = s3).
+  { assert (X : set_now s2 t = s2) by (rewrite <- En; apply set_now_id).
+    unfold step. cbn [fst snd ev_time]. rewrite En, N.max_id, X. cbn [pre].
+    assert (Q2 : settle fe (fire false t s2) = s2).
+    { rewrite <- En. apply quiet_settle_fire; auto.
+      intros j r In2. rewrite Ei in In2. apply in_app_iff in In2. destruct In2 as [In2|[In2|[]]].
+      - destruct (OLD j r In2) as [Gj _]. rewrite En, <- N1. apply rec_ok_quiet, (R1 j r Gj).
+      - inversion In2; subst. unfold quiet_rec, r0, fresh_rec. repeat split. }
+    rewrite Q2. cbn [apply]. rewrite <- Hs3. rewrite <- N3. apply quiet_settle_fire.
+    - intros j r In3. apply rec_ok_quiet. destruct INV3 as [[K3 _] R3]. apply (R3 j r). apply In_al_get; auto.
+    - destruct INV3 as [[_ [[_ [NE3 _]] _]] _]. exact NE3. }
+  rewrite E2.
+  split; [exact INV3|]. split; [|split; [|split; [exact N3|split; [|exact IDS3]]]].
+  - intros Sx. rewrite Hs3 in Sx; unfold do_await in Sx. rewrite upd_all_shut, Es in Sx. discriminate.
+  - intros j. unfold abs at 1. rewrite G3. unfold spec_step. cbn [fst snd ev_time].
+    destruct (N.eqb_spec j i) as [->|NE].
+    + unfold abs. rewrite G. cbn [expire react]. rewrite N.eqb_refl. rewrite AW. unfold abs_rec, spec_of; cbn.
+      assert (X : (t + life <=? t) = false) by (apply N.leb_gt; lia).
+      repeat first [rewrite X | progress (unfold expire, due; cbn [s_D])]. reflexivity.
+    + fold (abs s1 j). rewrite A1.
+      assert (RE : forall st, react fe j st (Express i n cbp dig life vm t) = st).
+      { intros st. destruct st; cbn; auto. apply N.eqb_neq in NE. rewrite N.eqb_sym, NE. reflexivity. }
+      rewrite RE.
+      assert (RA : forall st, react fe j st (Await i t) = st) by (intros st; destruct st; reflexivity).
+      rewrite RA. rewrite !expire_idem. reflexivity.
+  - rewrite Hs3; unfold do_await. rewrite upd_all_shut. exact Es.
+Qed.
